@@ -276,11 +276,16 @@ def run(ctx) -> None:
                         got_ = True
                         for if_, siblings_, in_body_ in chain:
                             for st_ in siblings_[:siblings_.index(if_)]:
-                                if isinstance(st_, ast.Assign) and len(st_.targets) == 1 and isinstance(st_.targets[0], ast.Name) and st_.targets[0].id not in (pat_v, part_v):
+                                simple_ = isinstance(st_, ast.Assign) and len(st_.targets) == 1 and isinstance(st_.targets[0], ast.Name) and st_.targets[0].id not in (pat_v, part_v)
+                                branchy_ = isinstance(st_, ast.If) and not any(isinstance(x_, (ast.Continue, ast.Break, ast.Return, ast.Raise)) for x_ in ast.walk(st_)) \
+                                    and not any(isinstance(x_, ast.Name) and isinstance(x_.ctx, ast.Store) and x_.id in (pat_v, part_v) for x_ in ast.walk(st_))
+                                if simple_ or branchy_:
                                     try:
                                         prog._propagate(cv.module, [st_], env_, cv.fq)
                                     except _CF:
-                                        env_.pop(st_.targets[0].id, None)          # not needed, or the guard itself will not fold
+                                        for x_ in ast.walk(st_):          # not needed, or the guard itself will not fold
+                                            if isinstance(x_, ast.Name) and isinstance(x_.ctx, ast.Store):
+                                                env_.pop(x_.id, None)
                             t_ = bool(prog.fold(cv.module, if_.test, env_))
                             got_ = got_ and (t_ if in_body_ else not t_)
                             if not got_:
